@@ -999,3 +999,324 @@ func c18r10(c *RC) {
 	}
 	c.Floor("value-column vectors in Fold", n, 1)
 }
+
+// C11-R10: comparison and hashing cover every key column.
+//
+// Frame.Less is lexicographic over columns 0..prefix and Frame.HashWithSeed
+// combines the same columns.  Every column access in them is f.data[X] with X
+// the induction variable of a loop that tiles [0, f.prefix) or the linear form
+// f.prefix itself; a constant index compares only that column, so keys that
+// differ in a middle key column are equal for Less but not for the hash: they
+// are folded together when they collide, sorted arbitrarily and merged across
+// runs (seed C09-c3).
+func c11r10(c *RC) {
+	pr := c.P
+	n := 0
+	for _, q := range []string{"frame.Frame.Less", "frame.Frame.HashWithSeed"} {
+		fn := c.MustFn(q)
+		if fn == nil {
+			continue
+		}
+		le := newLinEnv(pr, fn)
+		recv := recvOf(fn)
+		loopVars := map[types.Object]bool{}
+		inspectNoLit(fn.Body, func(nd ast.Node) bool {
+			fs, ok := nd.(*ast.ForStmt)
+			if !ok {
+				return true
+			}
+			init, ok1 := fs.Init.(*ast.AssignStmt)
+			cond, ok2 := fs.Cond.(*ast.BinaryExpr)
+			post, ok3 := fs.Post.(*ast.IncDecStmt)
+			if !ok1 || !ok2 || !ok3 || post.Tok != token.INC || len(init.Lhs) != 1 || len(init.Rhs) != 1 {
+				return true
+			}
+			iv, ok := init.Lhs[0].(*ast.Ident)
+			if !ok {
+				return true
+			}
+			if z, isC := constInt(fn.Pkg, init.Rhs[0]); !isC || z != 0 {
+				return true
+			}
+			// iv < f.prefix  (or f.prefix > iv)
+			d := le.norm(cond.X, 0)
+			d.addScaled(le.norm(cond.Y, 0), -1)
+			want := lin{le.atom(iv): 1, "$recv.prefix": -1}
+			neg := lin{le.atom(iv): -1, "$recv.prefix": 1}
+			if (cond.Op == token.LSS && d.String() == want.String()) || (cond.Op == token.GTR && d.String() == neg.String()) {
+				loopVars[fn.Pkg.Info.Defs[iv]] = true
+			}
+			return true
+		})
+		_ = recv
+		looped, last, bad := 0, 0, ""
+		inspectNoLit(fn.Body, func(nd ast.Node) bool {
+			ix, ok := nd.(*ast.IndexExpr)
+			if !ok {
+				return true
+			}
+			se, ok := ast.Unparen(ix.X).(*ast.SelectorExpr)
+			if !ok || pr.fieldQName(fn.Pkg.FieldOf(se)) != "frame.Frame.data" {
+				return true
+			}
+			if id, ok := ast.Unparen(ix.Index).(*ast.Ident); ok && loopVars[fn.Pkg.Info.Uses[id]] {
+				looped++
+				return true
+			}
+			if le.norm(ix.Index, 0).String() == (lin{"$recv.prefix": 1}).String() {
+				last++
+				return true
+			}
+			bad = expr(ix)
+			return true
+		})
+		n++
+		c.Check(bad == "" && looped > 0 && last > 0, q+"|covers-every-key-column", pr.Pos(fn.Body.Pos()),
+			strings.TrimPrefix(q, "frame.")+" does not address the key columns as a loop over [0, prefix) plus column prefix ("+bad+"): a key column is skipped, so rows that differ only in it compare equal while they hash differently (or the reverse) — equal keys are split across shards or distinct keys are folded together, sorted arbitrarily and merged across runs")
+	}
+	c.Floor("key-column kernels of Frame", n, 2)
+}
+
+// C02-R6: the failure of a *dependency* read is never fatal.
+//
+// When a task cannot read the output of a task it depends on (discarded,
+// machine lost), the dependency is recomputed: the executors classify the
+// task as lost unless the error is fatal.  The functions that open dependency
+// readers must therefore not wrap the error of such a read with errors.Fatal
+// (user-code failures — the combiner — are fatal, and stay so).  Seed C12-c3
+// tagged the local executor's "error reading" return Fatal, "like the returns
+// around it".
+func c02r6(c *RC) {
+	pr := c.P
+	n := 0
+	for _, fn := range pr.FuncsIn("exec") {
+		if fn.Body == nil || fn.Parent != nil {
+			continue
+		}
+		// functions that open readers on dependency tasks
+		opens := false
+		for _, k := range callsIn(fn.Body) {
+			cn := fn.Pkg.CalleeName(k)
+			if strings.HasSuffix(cn, ".Reader") && (strings.Contains(cn, "Executor") || strings.Contains(cn, "localExecutor")) {
+				opens = true
+			}
+		}
+		if !opens {
+			continue
+		}
+		fq := fn.QName()
+		// error variables assigned from a Read of a sliceio.Reader; every
+		// assignment is remembered with its position so that a use is
+		// attributed to the assignment that precedes it in the source
+		type asg struct {
+			pos    token.Pos
+			isRead bool
+		}
+		assigns := map[types.Object][]asg{}
+		readErr := map[types.Object]bool{}
+		ast.Inspect(fn.Body, func(nd ast.Node) bool {
+			as, ok := nd.(*ast.AssignStmt)
+			if !ok {
+				return true
+			}
+			isRead := false
+			if len(as.Rhs) == 1 && len(as.Lhs) == 2 {
+				if k, ok := ast.Unparen(as.Rhs[0]).(*ast.CallExpr); ok && isReaderRead(pr, fn.Pkg, k) {
+					isRead = true
+				}
+			}
+			for i, l := range as.Lhs {
+				id, ok := l.(*ast.Ident)
+				if !ok {
+					continue
+				}
+				o := fn.Pkg.Info.Defs[id]
+				if o == nil {
+					o = fn.Pkg.Info.Uses[id]
+				}
+				if o == nil {
+					continue
+				}
+				r := isRead && i == 1
+				assigns[o] = append(assigns[o], asg{as.Pos(), r})
+				if r {
+					readErr[o] = true
+				}
+			}
+			return true
+		})
+		if len(readErr) == 0 {
+			continue
+		}
+		fromRead := func(o types.Object, at token.Pos) bool {
+			best := asg{}
+			for _, a := range assigns[o] {
+				if a.pos < at && a.pos > best.pos {
+					best = a
+				}
+			}
+			return best.isRead
+		}
+		ast.Inspect(fn.Body, func(nd ast.Node) bool {
+			k, ok := nd.(*ast.CallExpr)
+			if !ok || fn.Pkg.CalleeName(k) != "github.com/grailbio/base/errors.E" {
+				return true
+			}
+			fatal, carries := false, false
+			for _, a := range k.Args {
+				if se, ok := ast.Unparen(a).(*ast.SelectorExpr); ok && se.Sel.Name == "Fatal" {
+					fatal = true
+				}
+				if id, ok := ast.Unparen(a).(*ast.Ident); ok && readErr[fn.Pkg.Info.Uses[id]] && fromRead(fn.Pkg.Info.Uses[id], k.Pos()) {
+					carries = true
+				}
+			}
+			if carries {
+				n++
+				c.Check(!fatal, fq+"|dependency-read-error-is-not-fatal", pr.Pos(k.Pos()),
+					strings.TrimPrefix(fq, "exec.")+" wraps the error of reading a dependency's output with errors.Fatal: a dependency whose output was discarded or lost is recomputed on demand, but a fatal error puts the reading task in TaskErr for good — the evaluation fails, and so does every later use of the result")
+			}
+			return true
+		})
+	}
+	c.Floor("dependency read errors that are wrapped", n, 1)
+}
+
+// C16-R10: everything reachable from the transported invocation is made of
+// exported fields.
+//
+// gob silently ignores unexported struct fields.  The invocation's own codec
+// (C16-R1/R2) hands its fields to gob, which walks their types: every struct
+// type of the module reachable from execInvocation's travelling fields (through
+// fields, pointers, slices, arrays and map keys/elements; interfaces excluded)
+// must consist of exported fields only, unless the type has its own
+// GobEncode.  Seed C13-c3 renamed taskOp.OpIdx to opIdx: the key of
+// CompileEnv.Cached lost its operator index in transit, so a cache hit for
+// operator k arrived as a hit for operator 0.
+func c16r10(c *RC) {
+	pr := c.P
+	root := pr.lookupType("exec", "execInvocation")
+	if root == nil {
+		c.Undecide("exec.execInvocation not found")
+		return
+	}
+	seen := map[string]bool{}
+	n := 0
+	var visit func(t types.Type, via string)
+	visit = func(t types.Type, via string) {
+		switch x := t.(type) {
+		case *types.Pointer:
+			visit(x.Elem(), via)
+		case *types.Slice:
+			visit(x.Elem(), via)
+		case *types.Array:
+			visit(x.Elem(), via)
+		case *types.Map:
+			visit(x.Key(), via+" (map key)")
+			visit(x.Elem(), via)
+		case *types.Named:
+			q := namedQName(x)
+			if seen[q] {
+				return
+			}
+			seen[q] = true
+			if x.Obj().Pkg() == nil || !strings.HasPrefix(x.Obj().Pkg().Path(), "github.com/grailbio/bigslice") {
+				return
+			}
+			st, ok := x.Underlying().(*types.Struct)
+			if !ok {
+				visit(x.Underlying(), via)
+				return
+			}
+			// a type with its own GobEncode decides for itself (execInvocation: C16-R1)
+			own := false
+			for i := 0; i < x.NumMethods(); i++ {
+				if x.Method(i).Name() == "GobEncode" {
+					own = true
+				}
+			}
+			if ms := types.NewMethodSet(types.NewPointer(x)); ms.Lookup(nil, "GobEncode") != nil {
+				own = true
+			}
+			for i := 0; i < st.NumFields(); i++ {
+				f := st.Field(i)
+				if !own {
+					n++
+					c.Check(f.Exported(), "transported:"+short(q)+"."+f.Name(), "", "the field "+f.Name()+" of "+short(q)+" ("+via+") is unexported, and gob silently skips unexported fields: the value arrives on the worker with that field zero — for the key of CompileEnv.Cached, a cache hit recorded for operator k of a task arrives as a hit for operator 0, and the worker compiles a different graph")
+				}
+				if _, isIface := f.Type().Underlying().(*types.Interface); isIface {
+					continue
+				}
+				if own && !f.Exported() {
+					continue
+				}
+				visit(f.Type(), "reached from "+short(q)+"."+f.Name())
+			}
+		case *types.Struct:
+			for i := 0; i < x.NumFields(); i++ {
+				n++
+				c.Check(x.Field(i).Exported(), "transported:struct."+x.Field(i).Name(), "", "an anonymous struct in the transported invocation has the unexported field "+x.Field(i).Name())
+				visit(x.Field(i).Type(), via)
+			}
+		}
+	}
+	visit(root, "the transported invocation")
+	c.Floor("fields of struct types reachable from the transported invocation", n, 8)
+}
+
+// C18-R11: a key column must be hashable *and* comparable.
+//
+// canMakeCombiningFrame (behind Reduce, Reshuffle and Reshard) reports a key
+// column as failing from a condition over frame.CanHash and frame.CanCompare.
+// The condition is evaluated under "CanHash failed" and under "CanCompare
+// failed" (the other unknown): each must certainly reach the statement that
+// records the failure.  `!(CanHash || CanCompare)` records only types that
+// support neither (seed C18-c3).
+func c18r11(c *RC) {
+	pr := c.P
+	fn := c.MustFn(".canMakeCombiningFrame")
+	if fn == nil {
+		return
+	}
+	fq := fn.QName()
+	done := map[string]bool{}
+	inspectNoLit(fn.Body, func(nd ast.Node) bool {
+		ifs, ok := nd.(*ast.IfStmt)
+		if !ok {
+			return true
+		}
+		var names []string
+		ast.Inspect(ifs.Cond, func(m ast.Node) bool {
+			if k, ok := m.(*ast.CallExpr); ok {
+				if nm := c18checks[fn.Pkg.CalleeName(k)]; nm == "CanHash" || nm == "CanCompare" {
+					names = append(names, nm)
+				}
+			}
+			return true
+		})
+		for _, nm := range names {
+			vf, known := c18failValue(fn.Pkg, ifs.Cond, nm, nil)
+			// the body must record the failure: append to a slice or return a non-nil error
+			records := false
+			ast.Inspect(ifs.Body, func(m ast.Node) bool {
+				if k, ok := m.(*ast.CallExpr); ok && expr(k.Fun) == "append" {
+					records = true
+				}
+				if r, ok := m.(*ast.ReturnStmt); ok && len(r.Results) > 0 {
+					if tv, ok := fn.Pkg.Info.Types[r.Results[len(r.Results)-1]]; ok && !tv.IsNil() {
+						records = true
+					}
+				}
+				return true
+			})
+			if known && vf && records {
+				done[nm] = true
+			}
+		}
+		return true
+	})
+	for _, nm := range []string{"CanHash", "CanCompare"} {
+		c.Check(done[nm], fq+"|failing-"+nm+"-is-recorded", pr.Pos(fn.Body.Pos()),
+			"canMakeCombiningFrame does not certainly report a key column for which frame."+nm+" fails (the condition that records failing types is not taken whenever this check alone fails): Reduce, Reshuffle and Reshard accept a key type that supports only one of hashing and comparison, and the first task that needs the other fails with a nil function call")
+	}
+}
